@@ -21,13 +21,13 @@ last_logical_slice_index is consumed_slices + len - 1; (R3.3) every consuming ca
 ConsumingIovec::consume / advance_slices return the GlobalDeque result, GlobalDeque::consume returns the
 clamped count it advanced by (asserted equal to what the deque advanced), consume_by_bytes returns the sum of
 the per-slice amounts, Read::read copies, advances and counts the same `to_write` = min(front.len(),
-dst.len()) bytes per iteration, from front(); (R3.4 = R4.3, R4.6) consumption is clamped by the stable prefix
+dst.len()) bytes per iteration, from front(); (R3.4 = R4.1-R4.3, R4.6) every consumer view goes through the stable prefix, which stops at the earliest pending placeholder; consumption is clamped by the stable prefix
 and placeholders travel with their bytes (so a backfilled placeholder holds its value).
 """
 
 ASSUMPTIONS = ['SlidingDeque / SortedDeque clauses (C15, C16)', 'C04 for placeholder visibility']
 
-FLOORS = {'R3.1': 7, 'R3.2': 9, 'R3.3': 6, 'R3.4': 8}
+FLOORS = {'R3.1': 7, 'R3.2': 9, 'R3.3': 6, 'R3.4': 30}
 
 
 def _nonempty_fact(fn, bb, slice_expr_show=None):
@@ -204,9 +204,9 @@ def r3_3(cx):
 
 
 def r3_4(cx):
-    """consumption clamped by the stable prefix; placeholders travel with their bytes (R4.3, R4.6)"""
+    """the consumer sees only the stable prefix, which stops at the earliest pending placeholder; consumption clamped by it; placeholders travel with their bytes (R4.1-R4.3, R4.6)"""
     sub = cx.__class__(cx.prog, cx.profile, cx.prop)
-    for rid, f in (('R4.3', c04.r4_3), ('R4.6', c04.r4_6)):
+    for rid, f in (('R4.1', c04.r4_1), ('R4.2', c04.r4_2), ('R4.3', c04.r4_3), ('R4.6', c04.r4_6)):
         sub.rule = rid
         try:
             f(sub)
